@@ -10,32 +10,33 @@ import (
 )
 
 type Interp struct {
-	ld      *Loaded
-	prog    *ssa.Program
-	globals map[*ssa.Global]*value
-	solver  *Solver
-	ex      *Explorer
-	pc      []*Term
-	nsym    int
-	names   map[string]int
-	params  map[string]int
-	inited  map[*ssa.Package]bool
-	hpkg    string  // package path of the harness being run (scopes //gosmt:stub)
-	initDepth int
-	ndecode int
-	rs      *raceState
+	ld            *Loaded
+	prog          *ssa.Program
+	globals       map[*ssa.Global]*value
+	solver        *Solver
+	ex            *Explorer
+	pc            []*Term
+	nsym          int
+	names         map[string]int
+	params        map[string]int
+	inited        map[*ssa.Package]bool
+	hpkg          string // package path of the harness being run (scopes //gosmt:stub)
+	initDepth     int
+	ndecode       int
+	crossChecked  int
+	rs            *raceState
 	mapOrderForks int
-	quiet   int
-	builders map[*value]*builderState
-	events  []value // zzsym.Emit trace (interpreter values of type zzsym.Event)
-	notes   []string
+	quiet         int
+	builders      map[*value]*builderState
+	events        []value // zzsym.Emit trace (interpreter values of type zzsym.Event)
+	notes         []string
 	// statistics
-	instrs   int64
+	instrs     int64
 	initInstrs int64
-	funcs    map[string]int
-	stubs    map[string]int
-	unwind   int
-	maxSteps int64
+	funcs      map[string]int
+	stubs      map[string]int
+	unwind     int
+	maxSteps   int64
 	// per-path results
 	violations []Violation
 	reached    map[string]int
